@@ -2264,6 +2264,11 @@ def summarize(prog: Program, fn: FuncInfo, args: Optional[Dict[str, Term]] = Non
     inside = any(q in _SUMMARIZING for q in TermAnalysis.OUTLINED)
     if inside:
         key = key + ("inside-outlined",)
+    try:
+        hash(key)
+    except TypeError:
+        # (an argument term that holds an unhashable Python value - a closure over a list literal that is still being filled: keyed by its text)
+        key = (id(prog), fn.qual, fn.kind, repr(sorted((args or {}).items(), key=lambda kv: kv[0])), OPTIONS["gate_last"]) + (("inside-outlined",) if inside else ())
     if key in _CACHE:
         return _CACHE[key]
     ta = TermAnalysis(prog, fn, args)
